@@ -300,6 +300,32 @@ def run(ctx):
                       f"{d}: with backward=True `{short(bad, 60) if bad else ''}` modifies the density in place: autograd cannot unroll through it")
         if n_arm == 0:
             raise AnalysisError(f"{d}: no backward arm updating P")
+    # solver state on the differentiable path is never written under no_grad in the unrolled drivers
+    STATE = {"F", "FOCK", "P", "Pnew", "Pold", "Eelec", "Eelec_new", "Hcore", "Pmix", "Pmix_0", "Pmix_1"}
+    for d in ("scf_forward0", "scf_forward1", "scf_forward2", "adaptive_mix"):
+        f = scf.func(d)
+        blocks = [w for w in ast.walk(f) if isinstance(w, ast.With) and any("no_grad" in norm(i.context_expr) for i in w.items)]
+        bad = []
+        for w in blocks:
+            for st in ast.walk(w):
+                tg = []
+                if isinstance(st, ast.Assign):
+                    tg = st.targets
+                elif isinstance(st, ast.AugAssign):
+                    tg = [st.target]
+                elif isinstance(st, ast.Expr) and isinstance(st.value, ast.Call) and isinstance(st.value.func, ast.Attribute) and st.value.func.attr.endswith("_") \
+                        and not st.value.func.attr.startswith("_"):
+                    tg = [st.value.func.value]
+                for t in tg:
+                    base = t
+                    while isinstance(base, ast.Subscript):
+                        base = base.value
+                    if isinstance(base, ast.Name) and base.id in STATE:
+                        bad.append(st)
+        ctx.check(not bad, "R5", scf, bad[0] if bad else f, d, bad[0] if bad else "no_grad blocks",
+                  f"{d}: the {len(blocks)} no_grad block(s) only compute mixing heuristics; Fock matrices, densities and energies are written outside them",
+                  f"{d}: `{short(bad[0], 70) if bad else ''}` writes solver state under torch.no_grad(): with scf_backward=2 everything downstream "
+                  f"(extrapolated Fock matrix, later densities) drops out of the autograd graph while forward values stay identical")
     sl = scf.func("scf_loop")
     n2 = 0
     for c in calls_in(sl):
